@@ -67,6 +67,7 @@ type Result struct {
 	Trans   []string       `json:"trans,omitempty"`
 	Shape   string         `json:"shape,omitempty"`
 	WallUs  int64          `json:"wall_us"`
+	MemMB   int            `json:"mem_mb"`
 	SigHits map[string]int `json:"sig_hits,omitempty"`
 	Desc    string         `json:"desc,omitempty"`
 
@@ -227,7 +228,9 @@ func (p *Pool) Start() {
 				w.jobs++
 				if !alive {
 					w = nil
-				} else if w.jobs >= p.recycle {
+				} else if w.jobs >= p.recycle || res.MemMB > 1500 {
+					// bubbles leave goroutines (and what they hold: payload buffers) behind: a fresh process every so
+					// many runs, and at once when it has grown beyond 1.5 GiB
 					w.close()
 					w = nil
 				}
